@@ -202,7 +202,7 @@ class C17(runner.Check):
         why = "other"
         if "option[" in s or "categorical[" in s:
             why = "needs-highlevel"
-        elif "{}" in s or "()" in s:
+        elif "{}" in s or "()" in s or "struct[[]," in s or "tuple[[]," in s:
             why = "empty-record"
         elif "\\" in s:
             why = "escape"
